@@ -126,9 +126,17 @@ size_t strlen(const char *s)
 }
 #endif
 
+#ifdef STRCHR_EXACT_GLOBAL
+/* exact strchr as the real symbol (TUs whose only strchr calls scan short constant strings) */
+#define STRCHR_EXACT
+#define verif_strchr strchr
+#define VSC_STATIC
+#else
+#define VSC_STATIC static
+#endif
 #ifdef STRCHR_EXACT
 /* exact strchr for short, harness-bounded strings (command names): plain loop, unwound completely by the unit */
-static char *verif_strchr(const char *s, int c)
+VSC_STATIC char *verif_strchr(const char *s, int c)
 {
 	/* loop-free, exact for strings of at most 23 bytes + NUL (asserted) */
 #define SC_(i, rest) (s[i] == (char) c ? (char *) s + (i) : s[i] == 0 ? (char *) 0 : (rest))
@@ -171,5 +179,22 @@ int verif_toupper(int c)
 {
 	return c >= -128 && c < 256 ? verif_ctype_up[c + 128] : c;
 }
+
+/* loop variant for pointer-walking loops: bytes left in the object (history variables are not
+ * available in decreases clauses) */
+#pragma CPROVER check push
+#pragma CPROVER check disable "pointer"
+#pragma CPROVER check disable "pointer-primitive"
+#pragma CPROVER check disable "pointer-overflow"
+#pragma CPROVER check disable "signed-overflow"
+long dec_ptr(const void *p)
+{
+	return (long) __CPROVER_OBJECT_SIZE(p) - (long) __CPROVER_POINTER_OFFSET(p);
+}
+long inc_ptr(const void *p)
+{
+	return (long) __CPROVER_POINTER_OFFSET(p);
+}
+#pragma CPROVER check pop
 
 #endif
